@@ -30,6 +30,8 @@ def run_property(prop: str, tier: str, repo: str, write_evidence: bool = True, q
         return 2, rep
     model = Model(repo)
     rep.meta["model"] = model.stats()
+    rep.meta["normalisation"] = {"normal_form": "engine/normal.py N1-N4 applied to every module and every pattern",
+                                 "roles": getattr(model, "role_stats", {})}
     rep.rule_titles = dict(getattr(mod, "RULES", {}))
     mod.run(model, rep, tier)
     return rep, model, mod
